@@ -202,6 +202,7 @@ OpResult World::op_make_seg(const Op &op, bool is_probe, bool shared_font) {
         s.seg = gr_make_seg(font, f.face, script, fv, gr_encform(enc), s.text.buf.data(), s.text.nchars, dir);
     }
     probe(s.seg ? "seg:returned" : "seg:null");
+    if (s.text.nchars > 65536) probe(s.seg ? "seg:giant-text-returned" : "seg:giant-text-null");
     MonitorFlags mf; mf.gid_clause = f.pristine_gids; mf.c05 = monitor_c05;
     check_segment(s.seg, s.text, f.face, font, mf, s.view);
     if (s.seg && s.view.chain_ok) dump_segment(s.view, f.face, font, dump_attrs, r.v); else r.v.push_back(s.seg ? -2 : -1);
